@@ -1,5 +1,5 @@
 SPECIFICATION Spec
-CONSTANTS Names = {"a", "b", "c"} MaxWrites = 4 MaxCrashes = 3 MaxFaults = 0 StaleFix = TRUE
+CONSTANTS Names = {"a", "b"} MaxWrites = 3 MaxCrashes = 1 MaxFaults = 2 StaleFix = TRUE
 INVARIANTS NotBad TargetComplete
 PROPERTY AllWritesFinish
 CHECK_DEADLOCK FALSE
